@@ -369,7 +369,8 @@ class Program:
         S, T = self.anyspec(), self.anyspec()
         if rng.random() < 0.1:
             T = self.weird()
-        k = rng.choice(['ext', 'ioe', 'sro', 'iro', 'rebase', 'get', 'call', 'names', 'contains', 'eqhash', 'interfaces'])
+        k = rng.choice(['ext', 'ioe', 'sro', 'iro', 'rebase', 'get', 'call', 'names', 'contains', 'eqhash', 'interfaces',
+                        'spb', 'sib', 'algebra', 'cpdesc', 'weakref'])
         if k == 'ext':
             self.emit('%s.extends(%s)' % (R(S), R(T)), lambda: bool(S.extends(T)))
             self.emit('%s.extends(%s,False)' % (R(S), R(T)), lambda: bool(S.extends(T, False)))
@@ -403,6 +404,30 @@ class Program:
             self.emit('list(%s)' % R(D), lambda: list(D))
         elif k == 'eqhash':
             self.emit('hash(%s) stable' % R(S), lambda: hash(S) == hash(S))
+        elif k == 'spb':
+            # any specification (not only interfaces) asked whether an object provides it
+            o = self.obj()
+            self.emit('%s.providedBy(%s)' % (R(S), R(o)), lambda: bool(S.providedBy(o)))
+        elif k == 'sib':
+            c = rng.choice(self.classes + [int, object]) if rng.random() < 0.9 else self.weird()
+            self.emit('%s.implementedBy(%s)' % (R(S), R(c)), lambda: bool(S.implementedBy(c)))
+        elif k == 'algebra':
+            A = rng.choice([implementedBy(rng.choice(self.classes)), providedBy(rng.choice(self.objs)), directlyProvidedBy(rng.choice(self.objs)),
+                            Declaration(*rng.sample(self.ifaces, min(2, len(self.ifaces)))), _empty])
+            B = rng.choice([self.iface(), implementedBy(rng.choice(self.classes)), directlyProvidedBy(rng.choice(self.objs)), _empty])
+            self.emit('%s + %s' % (R(A), R(B)), lambda: list(A + B))
+            self.emit('%s - %s' % (R(A), R(B)), lambda: list(A - B))
+            self.emit('flattened(%s)' % R(A), lambda: list(A.flattened()))
+        elif k == 'cpdesc':
+            # the class-provides descriptor: found on the class, hidden from instances
+            c = rng.choice(self.classes)
+            o = rng.choice(self.objs)
+            self.emit('%s.__provides__' % c.__name__, lambda: list(c.__provides__))
+            self.emit('%s.__provides__ (instance attribute)' % o.zname, lambda: list(o.__provides__))
+            self.emit('%s.__providedBy__' % o.zname, lambda: list(o.__providedBy__.flattened()))
+            self.emit('%s.__providedBy__' % c.__name__, lambda: list(c.__providedBy__.flattened()))
+        elif k == 'weakref':
+            self.emit('%s.weakref()() is S' % R(S), lambda: S.weakref()() is S)
 
     def op_cmp(self):
         rng = self.rng
